@@ -36,7 +36,10 @@ def thermo(which='P'):
 
 
 def fr(x):
-    f = Fraction(float(x)).limit_denominator(1 << 20)
+    x = float(x)
+    if x != x or x in (float('inf'), float('-inf')):
+        return [0, 0]
+    f = Fraction(x).limit_denominator(1 << 20)
     return [f.numerator, f.denominator]
 
 
@@ -67,6 +70,7 @@ class World:
         self.rx = {s: None for s in self.slots}
         self.set = None
         self.set_kind = NONE
+        self.held = []
 
     # ---- projection --------------------------------------------------------------------------
     def _rec(self, rxn):
@@ -74,8 +78,9 @@ class World:
             return dict(NORXN)
         nu = rxn._stoichiometry.to_array()
         if rxn._basis == 'wt':
-            nu = nu / rxn.MWs
-            nu = nu / -nu[rxn._reactant_index]
+            with np.errstate(all='ignore'):
+                nu = nu / rxn.MWs
+                nu = nu / -nu[rxn._reactant_index]
         return dict(k='rxn', nu=[fr(x) for x in nu], r=int(rxn._reactant_index) + 1, X=fr(rxn.X))
 
     def project(self):
@@ -95,6 +100,7 @@ class World:
             r = st['Rx'][s]
             self.rx[s] = None if r['k'] == 'none' else self._make(r['nu'], r['r'], r['X'])
         S = st['RS']
+        self.held = []
         if S['kind'] == 'none':
             self.set, self.set_kind = None, NONE
         else:
@@ -103,6 +109,7 @@ class World:
                 self.set = tmo.ReactionSystem(*rx)
             else:
                 self.set = (tmo.ParallelReaction if S['kind'] == 'parallel' else tmo.SeriesReaction)(rx)
+                self.held = [self.set[i] for i in range(len(rx))]
             self.set_kind = S['kind']
 
     def _make(self, nu, r, X):
@@ -119,16 +126,47 @@ class World:
         except Exception as e:
             exc = type(e).__name__
             extra = dict(msg=str(e)[:200])
-        obs = dict(exc=exc, same=False)
+        obs = dict(exc=exc, same=False, reduced_m=[], held_agree=self._held_agree(), too_big=False)
         obs.update(extra)
         return obs
 
+    def _held_agree(self):
+        """Items obtained when the set was built must still show the set's conversions (and vice versa)."""
+        if self.set is None or self.set_kind == 'system' or not getattr(self, 'held', None):
+            return True
+        try:
+            return all(abs(float(it.X) - float(self.set.X[i])) < 1e-12 and abs(float(self.set[i].X) - float(it.X)) < 1e-12
+                       for i, it in enumerate(self.held))
+        except Exception:
+            return False
+
+    def _as_mol(self, rxn):
+        """A bare array carries no units: apply the molar form of the reaction to molar flows."""
+        if isinstance(rxn, tmo.Reaction):
+            return rxn.copy(basis='mol') if rxn._basis == 'wt' else rxn
+        if self.set_kind == 'system':
+            return tmo.ReactionSystem(*[r.copy(basis='mol') for r in rxn.reactions]) if rxn._basis == 'wt' else rxn
+        return type(rxn)([r.copy(basis='mol') for r in rxn]) if rxn._basis == 'wt' else rxn
+
     def _react(self, rxn, how):
         feed = self.feed
+        if how in ('array', 'sparse'):
+            rxn = self._as_mol(rxn)
         if how == 'stream':
             rxn(feed)
         elif how == 'stream_wt':
             rxn.copy(basis='wt')(feed) if isinstance(rxn, tmo.Reaction) else self._wt_set(rxn)(feed)
+        elif how == 'stream_wt_mol':
+            back = rxn.copy(basis='wt').copy(basis='mol') if isinstance(rxn, tmo.Reaction) else rxn
+            back(feed)
+        elif how == 'stream_other_reset':
+            # the reaction itself is moved to the other package, then applied to a stream of that package
+            r2 = rxn.copy()
+            r2.reset_chemicals(thermo('Q').chemicals)
+            other = tmo.Stream(None, thermo=thermo('Q'), phase='g', T=400)
+            other.copy_like(feed)
+            r2(other)
+            feed.copy_like(other)
         elif how == 'stream_other':
             other = tmo.Stream(None, thermo=thermo('Q'), phase='g', T=400)
             other.copy_like(feed)
@@ -210,11 +248,42 @@ class World:
             R[a['x']].X = val(a['X'])
         elif op == 'mkset':
             rx = [R[s] for s in a['xs']]
+            if len({r._basis for r in rx}) > 1:      # a set needs one basis: re-base the members (value unchanged)
+                rx = [r.copy(basis='mol') for r in rx]
             if a['kind'] == 'system':
                 self.set = tmo.ReactionSystem(*[r.copy() for r in rx])
             else:
                 self.set = (tmo.ParallelReaction if a['kind'] == 'parallel' else tmo.SeriesReaction)(rx)
             self.set_kind = a['kind']
+            self.held = [self.set[i] for i in range(len(rx))] if a['kind'] != 'system' else []
+        elif op == 'item_imul':
+            it = self.held[a['i'] - 1] if rng_choice(a) else self.set[a['i'] - 1]
+            it *= val(a['q'])
+        elif op == 'item_idiv':
+            it = self.held[a['i'] - 1] if rng_choice(a) else self.set[a['i'] - 1]
+            it /= val(a['q'])
+        elif op == 'set_assign_X':
+            self.set.X = [val(x) for x in a['Xs']]
+        elif op == 'reduce':
+            red = self.set.reduce()
+            f = tmo.Stream(None, thermo=self.th, phase='g', T=400)
+            f.copy_like(self.feed)
+            tmo.reaction.CHECK_FEASIBILITY = False
+            try:
+                red.force_reaction(f)
+            finally:
+                tmo.reaction.CHECK_FEASIBILITY = True
+            return dict(reduced_m=[fr(x) for x in f.imol.data.to_array()])
+        elif op == 'to_mol':
+            res = R[a['x']].copy(basis='mol')
+            same = res is R[a['x']]
+            R[a['d']] = res
+            return dict(same=same)
+        elif op == 'to_wt':
+            res = R[a['x']].copy(basis='wt')
+            same = res is R[a['x']]
+            R[a['d']] = res
+            return dict(same=same)
         elif op == 'item_set_X':
             self.set[a['i'] - 1].X = val(a['X'])
             return dict(agree=bool(abs(float(self.set.X[a['i'] - 1]) - val(a['X'])) < 1e-12))
@@ -223,6 +292,10 @@ class World:
             return dict(agree=bool(abs(float(self.set[a['i'] - 1].X) - val(a['X'])) < 1e-12))
         else:
             raise KeyError(op)
+
+
+def rng_choice(a):
+    return bool(a.get('held', True))
 
 
 # ---- random operations ---------------------------------------------------------------------------------
@@ -242,7 +315,7 @@ def random_op(rng, st, ops, slots=SLOTS):
     if op == 'set_feed':
         return op, dict(f=[q(F(rng.choice([0, 0, 1, 2, 4, 8]))) for _ in IDS])
     if op == 'react':
-        return op, dict(x=x, how=rng.choice(['stream', 'stream', 'stream_wt', 'stream_other', 'array', 'sparse']))
+        return op, dict(x=x, how=rng.choice(['stream', 'stream', 'stream_wt', 'stream_wt_mol', 'stream_other', 'stream_other_reset', 'array', 'sparse']))
     if op == 'react_set':
         return op, dict(how=rng.choice(['stream', 'stream_wt', 'array']))
     if op in ('add', 'sub', 'iadd', 'isub'):
@@ -269,6 +342,16 @@ def random_op(rng, st, ops, slots=SLOTS):
     if op == 'mkset':
         n = rng.randint(1, 3)
         return op, dict(kind=rng.choice(['parallel', 'series', 'system']), xs=[rng.choice(loaded or slots) for _ in range(n)])
+    if op in ('item_imul', 'item_idiv'):
+        n = len(st['RS']['items'])
+        return op, dict(i=rng.randint(1, max(n, 1)), q=q(rng.choice(KV)), held=rng.random() < 0.5)
+    if op == 'set_assign_X':
+        n = len(st['RS']['items'])
+        return op, dict(Xs=[q(rng.choice(XV)) for _ in range(n)])
+    if op == 'reduce':
+        return op, dict()
+    if op in ('to_wt', 'to_mol'):
+        return op, dict(d=rng.choice(slots), x=x)
     if op in ('item_set_X', 'set_set_X'):
         n = len(st['RS']['items'])
         return op, dict(i=rng.randint(1, max(n, 1)), X=q(rng.choice(XV)))
